@@ -377,7 +377,20 @@ def _main(pid, tier, replay_path, nproc, seed, t0):
         pool = ctx.Pool(min(nproc, n_shards))
         try:
             it = pool.imap_unordered(_work, shards, chunksize=1)
-            for r in it:
+            grace = 60.0 if tier == "quick" else 1800.0
+            while True:
+                try:
+                    r = it.next(timeout=5.0)
+                except StopIteration:
+                    break
+                except mp.TimeoutError:
+                    # no shard has returned for a while: the wall-clock budget also bounds a shard whose
+                    # exploration does not come to an end (it is abandoned and reported as not covered)
+                    if time.time() - t0 > budget + grace:
+                        total.capped = "time budget %.0fs (+%.0fs) hit while shards were still running; " \
+                                       "%d/%d shards completed" % (budget, grace, done, n_shards)
+                        break
+                    continue
                 done += 1
                 if r.capped and r.capped.startswith("HARNESS-ERROR"):
                     harness_errors.append(r.capped)
